@@ -315,15 +315,19 @@ type c03Runner struct {
 	h0     int64
 	kinds  map[string]bool
 	vals   []string
+	// native-restaking deficit per staker/asset: what earlier balance decreases removed and increases have not yet
+	// restored. The oracle caps a validator's effective balance at what was deposited, so a positive adjustment never
+	// exceeds the earlier decreases; the generators respect that bound.
+	nstDeficit map[[2]int]sdkmath.Int
 }
 
 func (w *c03World) newRunner(cw *CaseWriter, suite string, h0 int64, tags []string, setup func(ctx sdk.Context) []string) *c03Runner {
 	ctx, _ := w.env.Ctx.CacheContext()
 	ctx = ctx.WithBlockHeight(h0)
-	r := &c03Runner{w: w, cw: cw, ctx: ctx, h0: h0, kinds: map[string]bool{}, nonce: 1}
+	r := &c03Runner{w: w, cw: cw, ctx: ctx, h0: h0, kinds: map[string]bool{}, nonce: 1, nstDeficit: map[[2]int]sdkmath.Int{}}
 	r.vals = append([]string{}, w.opStrs[:w.nVals]...)
 	if setup != nil {
-		// part of the case's initial state (before the first dump): returns extra dogfood-status entries
+		// part of the case's initial state (before the first dump); may return extra validator entries (none at present)
 		r.vals = append(r.vals, setup(ctx)...)
 	}
 	r.cs = c03Case{Suite: suite, Tags: tags, Height: h0}
@@ -510,6 +514,45 @@ func (r *c03Runner) slash(op int, eh int64, prop sdkmath.LegacyDec, power int64)
 	return res
 }
 
+// nstBalance: DelegationKeeper.UpdateNSTBalance(stakerID, assetID, amount) - the balance adjustment the oracle reports for
+// native restaking. The keeper function does not look at the kind of asset, so it is driven on the registered assets.
+// Ghost: a positive change books its amount; for a negative change the amount the IMPLEMENTATION booked, i.e. the
+// decrease of the staker's own TotalDepositAmount.
+func (r *c03Runner) nstBalance(st, as int, amt sdkmath.Int) string {
+	w := r.w
+	total := func() sdkmath.Int {
+		info, err := w.env.App.AssetsKeeper.GetStakerSpecifiedAssetInfo(r.ctx, w.stakerIDs[st], w.assetIDs[as])
+		if err != nil {
+			return sdkmath.ZeroInt()
+		}
+		return info.TotalDepositAmount
+	}
+	key := [2]int{st, as}
+	def, okd := r.nstDeficit[key]
+	if !okd {
+		def = sdkmath.ZeroInt()
+	}
+	if amt.IsPositive() && amt.GT(def) {
+		amt = def // never above what earlier decreases removed (may become 0: a no-op adjustment)
+	}
+	before := total()
+	res := r.exec(func(ctx sdk.Context) error {
+		return w.env.App.DelegationKeeper.UpdateNSTBalance(ctx, w.stakerIDs[st], w.assetIDs[as], amt)
+	})
+	var gev []string
+	if res == "ok" && amt.IsPositive() {
+		gev = []string{cApp("GNstP", r.S(w.assetIDs[as]), cZbig(amt.BigInt()))}
+		r.nstDeficit[key] = def.Sub(amt)
+	} else if res == "ok" && amt.IsNegative() {
+		booked := before.Sub(total())
+		gev = []string{cApp("GNstM", r.S(w.assetIDs[as]), cZbig(booked.BigInt()))}
+		r.nstDeficit[key] = def.Add(booked)
+	}
+	r.record(c03Op{Kind: "NstBalance", Staker: st, Asset: as, Amt: amt.String(), Height: r.ctx.BlockHeight()},
+		cApp("NstBalance", r.S(w.stakerIDs[st]), r.S(w.assetIDs[as]), cZbig(amt.BigInt())), res, gev)
+	return res
+}
+
 func (r *c03Runner) holdOp(rk string, inc bool) string {
 	k := r.w.env.App.DelegationKeeper
 	kind := "HoldDec"
@@ -584,6 +627,14 @@ func (r *c03Runner) position(st, as, op int) sdkmath.Int {
 }
 
 func (r *c03Runner) initDump() c03Dump { return r.init0 }
+
+func (r *c03Runner) pendingOf(st, as int) sdkmath.Int {
+	info, err := r.w.env.App.AssetsKeeper.GetStakerSpecifiedAssetInfo(r.ctx, r.w.stakerIDs[st], r.w.assetIDs[as])
+	if err != nil {
+		return sdkmath.ZeroInt()
+	}
+	return info.PendingUndelegationAmount
+}
 
 func (r *c03Runner) recordKeys() []string { return c03SortedKeys(r.prev[c03Ur]) }
 
